@@ -7,10 +7,9 @@
  "annotate": ["netbuf/netbuf_write.c"],
  "defines": ["VERIF_HALLOC"],
  "models": ["models/net_events.c", "models/net_netapi.c", "models/net_os.c"],
- "cbmc": ["--malloc-may-fail", "--malloc-fail-null"],
- "unwind": 24,
+ "cbmc": ["--malloc-may-fail", "--malloc-fail-null", "--unwindset", "poke.0:1,poke_wrapped_for_contract_checking.0:1,netbuf_write_consume_wrapped_for_contract_checking.0:4,netbuf_write_consume.0:4"],
  "timeout": 300,
- "assumptions": ["network_write / network_ssl_write = their C06 contracts (models/net_netapi.c), may fail", "buffers <= NW_MAXOBJ (16384) bytes", "--unwind 24 only bounds the constant-size loops of the DFCC library and the else-branch loop of STAILQ_REMOVE, which is unreachable here (the removed buffer is always the head): the unwinding assertions are discharged, so nothing is cut off (not a bounded stand-in)"]
+ "assumptions": ["network_write / network_ssl_write = their C06 contracts (models/net_netapi.c), may fail", "buffers <= NW_MAXOBJ (16384) bytes", "--unwindset poke.0:1 only bounds the else-branch loop of STAILQ_REMOVE in poke, which is unreachable (the removed buffer is always the head): the unwinding assertions are discharged, so nothing is cut off (not a bounded stand-in)"]
 }
 */
 #include <stdlib.h>
